@@ -1,3 +1,825 @@
+//! C06 witness searches: the incremental (RETE) engine fires a rule exactly for live facts that satisfy it; working
+//! memory lists exactly the live facts; handles are never reused.
+//!
+//! REFERENCE (from the statement).  A fact "satisfies" a rule when the rule's condition, evaluated on that ONE fact's
+//! own contents (a comparison that reads an absent field is false), is true.
+//!   * every firing names a rule and a matched fact (the action is handed the matched handle) such that the fact is
+//!     live and satisfies the rule at the moment of firing -- so never a retracted fact, never a blend of two facts;
+//!   * a no-loop rule fires at most once between resets;
+//!   * with actions that leave working memory unchanged, fire_all fires every no-loop rule that has not fired since
+//!     the last reset and that some live fact satisfies -- REQUIRED here only for rules whose fact type was touched
+//!     (insert / update / retract) since the previous fire_all, which is what "incremental" promises; for untouched
+//!     types the firing is allowed, not required (scope restriction, stated so that the search stays inside what
+//!     the statement covers);
+//!   * after every operation every live fact is found by get / get_by_type / get_all_facts exactly once, a
+//!     retracted one in none of them, and no handle value is handed out twice.
+//! KNOWN FINDINGS kept out of the enumeration (see /verif/known_findings.json): a queued activation is not
+//! re-evaluated when the fact is updated before fire_all (c06_stale_activation_fires_after_update) -- so `update`
+//! is enumerated only with new contents that satisfy every rule the old contents satisfied, and field-modifying
+//! actions only with a single no-loop rule; insert_from_stream is not used at all.
+//!
+//! Register in main.rs with `mod c06;` and `all.extend(c06::witnesses());`.
+use rust_rule_engine::rete::grl_loader::GrlReteLoader;
+use rust_rule_engine::rete::propagation::IncrementalEngine;
+use rust_rule_engine::rete::working_memory::WorkingMemory;
+use rust_rule_engine::rete::{ActionResult, AlphaNode, FactHandle, FactValue, ReteUlNode, TypedFacts, TypedReteUlRule};
+use std::collections::{BTreeMap, BTreeSet};
+use std::sync::{Arc, Mutex};
+
+// ------------------------------------------------------------------------------------------------ conditions
+
+#[derive(Clone, Debug, PartialEq)]
+enum V {
+    I(i64),
+    F(f64),
+    S(&'static str),
+    B(bool),
+}
+
+impl V {
+    fn num(&self) -> Option<f64> {
+        match self {
+            V::I(i) => Some(*i as f64),
+            V::F(f) => Some(*f),
+            _ => None,
+        }
+    }
+    fn literal(&self) -> String {
+        match self {
+            V::I(i) => i.to_string(),
+            V::F(f) => format!("{:?}", f),
+            V::S(s) => s.to_string(),
+            V::B(b) => b.to_string(),
+        }
+    }
+    fn grl(&self) -> String {
+        match self {
+            V::S(s) => format!("\"{}\"", s),
+            other => other.literal(),
+        }
+    }
+    fn fact_value(&self) -> FactValue {
+        match self {
+            V::I(i) => FactValue::Integer(*i),
+            V::F(f) => FactValue::Float(*f),
+            V::S(s) => FactValue::String(s.to_string()),
+            V::B(b) => FactValue::Boolean(*b),
+        }
+    }
+}
+
+#[derive(Clone, Debug)]
+enum C {
+    Cmp(&'static str, &'static str, V),
+    And(Box<C>, Box<C>),
+    Or(Box<C>, Box<C>),
+    Not(Box<C>),
+}
+
+type Contents = BTreeMap<&'static str, V>;
+
+impl C {
+    /// the reference evaluation on ONE fact's contents
+    fn holds(&self, f: &Contents) -> bool {
+        match self {
+            C::Cmp(field, op, lit) => match f.get(field) {
+                None => false,
+                Some(v) => match (v.num(), lit.num()) {
+                    (Some(a), Some(b)) => match *op {
+                        ">" => a > b,
+                        ">=" => a >= b,
+                        "<" => a < b,
+                        "<=" => a <= b,
+                        "==" => a == b,
+                        "!=" => a != b,
+                        _ => unreachable!(),
+                    },
+                    _ => match *op {
+                        "==" => v == lit,
+                        "!=" => v != lit,
+                        _ => false,
+                    },
+                },
+            },
+            C::And(a, b) => a.holds(f) && b.holds(f),
+            C::Or(a, b) => a.holds(f) || b.holds(f),
+            C::Not(a) => !a.holds(f),
+        }
+    }
+    fn node(&self, ty: &str) -> ReteUlNode {
+        match self {
+            C::Cmp(field, op, lit) => ReteUlNode::UlAlpha(AlphaNode { field: format!("{}.{}", ty, field), operator: op.to_string(), value: lit.literal() }),
+            C::And(a, b) => ReteUlNode::UlAnd(Box::new(a.node(ty)), Box::new(b.node(ty))),
+            C::Or(a, b) => ReteUlNode::UlOr(Box::new(a.node(ty)), Box::new(b.node(ty))),
+            C::Not(a) => ReteUlNode::UlNot(Box::new(a.node(ty))),
+        }
+    }
+    fn grl(&self, ty: &str) -> String {
+        match self {
+            C::Cmp(field, op, lit) => format!("{}.{} {} {}", ty, field, op, lit.grl()),
+            C::And(a, b) => format!("({} && {})", a.grl(ty), b.grl(ty)),
+            C::Or(a, b) => format!("({} || {})", a.grl(ty), b.grl(ty)),
+            C::Not(a) => format!("!({})", a.grl(ty)),
+        }
+    }
+}
+
+fn cmp(f: &'static str, op: &'static str, v: V) -> C {
+    C::Cmp(f, op, v)
+}
+fn and(a: C, b: C) -> C {
+    C::And(Box::new(a), Box::new(b))
+}
+fn or(a: C, b: C) -> C {
+    C::Or(Box::new(a), Box::new(b))
+}
+
+#[derive(Clone, Debug)]
+struct RuleSpec {
+    name: &'static str,
+    ty: &'static str,
+    cond: C,
+    priority: i32,
+    no_loop: bool,
+}
+
+#[derive(Clone, Copy, Debug, PartialEq)]
+enum Act {
+    /// leaves working memory unchanged (records the matched handle)
+    Nothing,
+    /// retracts the matched fact
+    RetractMatched,
+    /// sets field x of the matched fact's type to 0 (single no-loop rule only, see module comment)
+    ZeroX,
+}
+
+#[derive(Clone, Debug)]
+struct Template {
+    ty: &'static str,
+    fields: Vec<(&'static str, V)>,
+}
+
+fn tpl(ty: &'static str, fields: &[(&'static str, V)]) -> Template {
+    Template { ty, fields: fields.to_vec() }
+}
+
+impl Template {
+    fn contents(&self) -> Contents {
+        self.fields.iter().cloned().collect()
+    }
+    fn typed(&self) -> TypedFacts {
+        let mut t = TypedFacts::new();
+        for (k, v) in &self.fields {
+            t.set(*k, v.fact_value());
+        }
+        t
+    }
+    fn show(&self) -> String {
+        format!("{}{{{}}}", self.ty, self.fields.iter().map(|(k, v)| format!("{}:{}", k, v.grl())).collect::<Vec<_>>().join(","))
+    }
+}
+
+// ------------------------------------------------------------------------------------------------ histories
+
+#[derive(Clone, Debug)]
+enum Op {
+    Insert(usize),        // template index
+    Update(usize, usize), // fact index, template index (same type)
+    Retract(usize),       // fact index
+    FireAll,
+    Reset,
+}
+
+struct Setup {
+    rules: Vec<RuleSpec>,
+    templates: Vec<Template>,
+    action: Act,
+    /// load the rules through the GRL loader (actions: Log) instead of the TypedReteUlRule constructor
+    via_grl: bool,
+    max_facts: usize,
+    with_update: bool,
+}
+
+impl Setup {
+    fn describe(&self) -> String {
+        format!(
+            "rules [{}]{}",
+            self.rules
+                .iter()
+                .map(|r| format!("{} (salience {}{}): {}", r.name, r.priority, if r.no_loop { ", no-loop" } else { "" }, r.cond.grl(r.ty)))
+                .collect::<Vec<_>>()
+                .join("; "),
+            match (self.via_grl, self.action) {
+                (true, _) => " loaded from GRL, actions Log(..)",
+                (false, Act::Nothing) => ", actions leave working memory unchanged",
+                (false, Act::RetractMatched) => ", action retracts the matched fact",
+                (false, Act::ZeroX) => ", action sets <Type>.x = 0",
+            }
+        )
+    }
+    fn grl_text(&self) -> String {
+        self.rules
+            .iter()
+            .map(|r| format!("rule \"{}\" salience {} {} {{ when {} then Log(\"{}\"); }}", r.name, r.priority, if r.no_loop { "no-loop" } else { "" }, r.cond.grl(r.ty), r.name))
+            .collect::<Vec<_>>()
+            .join("\n")
+    }
+    fn show_ops(&self, ops: &[Op]) -> String {
+        let mut n = 0;
+        ops.iter()
+            .map(|o| match o {
+                Op::Insert(t) => {
+                    n += 1;
+                    format!("h{} = insert {}", n, self.templates[*t].show())
+                }
+                Op::Update(i, t) => format!("update(h{}, {})", i + 1, self.templates[*t].show()),
+                Op::Retract(i) => format!("retract(h{})", i + 1),
+                Op::FireAll => "fire_all".to_string(),
+                Op::Reset => "reset".to_string(),
+            })
+            .collect::<Vec<_>>()
+            .join("; ")
+    }
+}
+
+#[derive(Clone)]
+struct MFact {
+    ty: &'static str,
+    contents: Contents,
+    live: bool,
+}
+
+#[derive(Clone, Default)]
+struct Model {
+    facts: Vec<MFact>,
+    fired_since_reset: BTreeSet<&'static str>,
+    touched: BTreeSet<&'static str>,
+    fired_once: bool,
+}
+
+impl Model {
+    fn satisfied(&self, s: &Setup, f: &MFact) -> BTreeSet<&'static str> {
+        s.rules.iter().filter(|r| r.ty == f.ty && r.cond.holds(&f.contents)).map(|r| r.name).collect()
+    }
+    fn ops(&self, s: &Setup) -> Vec<Op> {
+        let mut v = Vec::new();
+        if self.facts.len() < s.max_facts {
+            for t in 0..s.templates.len() {
+                v.push(Op::Insert(t));
+            }
+        }
+        for (i, f) in self.facts.iter().enumerate() {
+            if f.live {
+                v.push(Op::Retract(i));
+                if s.with_update {
+                    let old = self.satisfied(s, f);
+                    for (t, tp) in s.templates.iter().enumerate() {
+                        if tp.ty != f.ty || tp.contents() == f.contents {
+                            continue;
+                        }
+                        let new = self.satisfied(s, &MFact { ty: f.ty, contents: tp.contents(), live: true });
+                        if old.is_subset(&new) {
+                            v.push(Op::Update(i, t)); // never turns a satisfied rule unsatisfied (known finding otherwise)
+                        }
+                    }
+                }
+            }
+        }
+        v.push(Op::FireAll);
+        if self.fired_once {
+            v.push(Op::Reset);
+        }
+        v
+    }
+    /// model step for everything but FireAll
+    fn apply(&mut self, s: &Setup, op: &Op) {
+        match op {
+            Op::Insert(t) => {
+                let tp = &s.templates[*t];
+                self.facts.push(MFact { ty: tp.ty, contents: tp.contents(), live: true });
+                self.touched.insert(tp.ty);
+            }
+            Op::Update(i, t) => {
+                self.facts[*i].contents = s.templates[*t].contents();
+                self.touched.insert(self.facts[*i].ty);
+            }
+            Op::Retract(i) => {
+                self.facts[*i].live = false;
+                self.touched.insert(self.facts[*i].ty);
+            }
+            Op::FireAll => {
+                self.fired_once = true;
+            }
+            Op::Reset => self.fired_since_reset.clear(),
+        }
+    }
+}
+
+type Log = Arc<Mutex<Vec<(String, Option<u64>, Option<FactValue>)>>>;
+
+fn build_engine(s: &Setup, log: &Log) -> Result<IncrementalEngine, String> {
+    let mut e = IncrementalEngine::new();
+    if s.via_grl {
+        let n = GrlReteLoader::load_from_string(&s.grl_text(), &mut e).map_err(|err| format!("GRL did not load: {:?}\n{}", err, s.grl_text()))?;
+        if n != s.rules.len() {
+            return Err(format!("GRL loaded {} of {} rules", n, s.rules.len()));
+        }
+        return Ok(e);
+    }
+    for r in &s.rules {
+        let log = log.clone();
+        let name = r.name.to_string();
+        let ty = r.ty.to_string();
+        let act = s.action;
+        e.add_rule(
+            TypedReteUlRule {
+                name: r.name.to_string(),
+                node: r.cond.node(r.ty),
+                priority: r.priority,
+                no_loop: r.no_loop,
+                action: Arc::new(move |facts, results| {
+                    let h = facts.get_fact_handle(&ty);
+                    // what the engine shows of the matched fact's field x at the moment of firing
+                    let x_seen = h.and_then(|h| facts.get(&format!("{}.{}.x", ty, h.id())).cloned());
+                    log.lock().unwrap().push((name.clone(), h.map(|h| h.id()), x_seen));
+                    match act {
+                        Act::Nothing => {}
+                        Act::RetractMatched => {
+                            if let Some(h) = h {
+                                results.add(ActionResult::Retract(h));
+                            }
+                        }
+                        Act::ZeroX => facts.set(format!("{}.x", ty), 0i64),
+                    }
+                }),
+            },
+            vec![r.ty.to_string()],
+        );
+    }
+    Ok(e)
+}
+
+/// listing check after an operation: every live fact by handle, by type (and under no other type), in the full listing;
+/// retracted ones nowhere; handle values distinct
+fn check_listing(wm: &WorkingMemory, m: &Model, hs: &[FactHandle], types: &[&'static str]) -> Option<String> {
+    let distinct: BTreeSet<u64> = hs.iter().map(|h| h.id()).collect();
+    if distinct.len() != hs.len() {
+        return Some(format!("a handle value was handed out twice: {:?}", hs.iter().map(|h| h.id()).collect::<Vec<_>>()));
+    }
+    for (i, f) in m.facts.iter().enumerate() {
+        let by_handle = wm.get(&hs[i]);
+        let in_all = wm.get_all_facts().iter().filter(|x| x.handle == hs[i]).count();
+        let in_handles = wm.get_all_handles().iter().filter(|x| **x == hs[i]).count();
+        for ty in types {
+            let n = wm.get_by_type(ty).iter().filter(|x| x.handle == hs[i]).count();
+            let exp = (f.live && *ty == f.ty) as usize;
+            if n != exp {
+                return Some(format!("h{} ({}, {}): get_by_type({}) lists it {} time(s), expected {}", i + 1, f.ty, if f.live { "live" } else { "retracted" }, ty, n, exp));
+            }
+        }
+        if by_handle.is_some() != f.live || in_all != f.live as usize || in_handles != f.live as usize {
+            return Some(format!(
+                "h{} ({}): get = {}, get_all_facts lists it {} time(s), get_all_handles {} time(s)",
+                i + 1,
+                if f.live { "live" } else { "retracted" },
+                by_handle.is_some(),
+                in_all,
+                in_handles
+            ));
+        }
+        if let Some(wf) = by_handle {
+            if wf.fact_type != f.ty {
+                return Some(format!("h{}: get shows type {}, inserted as {}", i + 1, wf.fact_type, f.ty));
+            }
+        }
+    }
+    let live = m.facts.iter().filter(|f| f.live).count();
+    if wm.get_all_facts().len() != live {
+        return Some(format!("get_all_facts lists {} facts, {} are live", wm.get_all_facts().len(), live));
+    }
+    None
+}
+
+/// contents of a live fact as working memory shows them, compared with the model (only where the action leaves memory alone)
+fn check_contents(wm: &WorkingMemory, m: &Model, hs: &[FactHandle]) -> Option<String> {
+    for (i, f) in m.facts.iter().enumerate() {
+        if !f.live {
+            continue;
+        }
+        if let Some(wf) = wm.get(&hs[i]) {
+            let got: BTreeMap<String, FactValue> = wf.data.get_all().iter().map(|(k, v)| (k.clone(), v.clone())).collect();
+            let exp: BTreeMap<String, FactValue> = f.contents.iter().map(|(k, v)| (k.to_string(), v.fact_value())).collect();
+            if got != exp {
+                return Some(format!("h{}: working memory shows {:?}, expected {:?}", i + 1, got, exp));
+            }
+        }
+    }
+    None
+}
+
+/// replay a history; Some(description) at the first departure from the reference.
+/// GRL parsing is slow, so a GRL-loaded engine may be handed in for reuse: it is emptied with reset_with_deffacts()
+/// (no deffacts are registered: working memory and agenda start afresh, the rules stay); a departure seen on a
+/// recycled engine is only reported if it also shows on a freshly loaded one.
+fn replay(s: &Setup, ops: &[Op], recycled: Option<&mut IncrementalEngine>) -> Option<String> {
+    let log: Log = Arc::new(Mutex::new(Vec::new()));
+    let mut fresh;
+    let e: &mut IncrementalEngine = match recycled {
+        Some(e) => {
+            e.reset_with_deffacts();
+            e
+        }
+        None => {
+            fresh = match build_engine(s, &log) {
+                Ok(e) => e,
+                Err(why) => return Some(why),
+            };
+            &mut fresh
+        }
+    };
+    let mut m = Model::default();
+    let mut hs: Vec<FactHandle> = Vec::new();
+    let types: Vec<&'static str> = s.templates.iter().map(|t| t.ty).collect::<BTreeSet<_>>().into_iter().collect();
+    let fail = |step: usize, why: String| Some(format!("{}; history: {} -- at step {}: {}", s.describe(), s.show_ops(&ops[..=step]), step + 1, why));
+    for (step, op) in ops.iter().enumerate() {
+        match op {
+            Op::Insert(t) => {
+                let tp = &s.templates[*t];
+                hs.push(e.insert(tp.ty.to_string(), tp.typed()));
+                m.apply(s, op);
+            }
+            Op::Update(i, _) | Op::Retract(i) if !m.facts[*i].live => return None, // the action retracted it already: not a history of the scope
+            Op::Update(i, t) => {
+                if let Err(err) = e.update(hs[*i], s.templates[*t].typed()) {
+                    return fail(step, format!("update of a live fact failed: {}", err));
+                }
+                m.apply(s, op);
+            }
+            Op::Retract(i) => {
+                if let Err(err) = e.retract(hs[*i]) {
+                    return fail(step, format!("retract of a live fact failed: {}", err));
+                }
+                m.apply(s, op);
+            }
+            Op::Reset => {
+                e.reset();
+                m.apply(s, op);
+            }
+            Op::FireAll => {
+                log.lock().unwrap().clear();
+                let fired = e.fire_all();
+                let seen = log.lock().unwrap().clone();
+                if !s.via_grl {
+                    let names: Vec<String> = seen.iter().map(|x| x.0.clone()).collect();
+                    if names != fired {
+                        return fail(step, format!("fire_all returned {:?} but the actions that ran were {:?}", fired, names));
+                    }
+                    // sentence 1: each firing on a live fact that satisfies the rule at that moment
+                    for (name, h, x_seen) in &seen {
+                        let r = s.rules.iter().find(|r| r.name == name).unwrap();
+                        let idx = match h.and_then(|h| hs.iter().position(|x| x.id() == h)) {
+                            Some(i) => i,
+                            None if h.is_none() => return fail(step, format!("{} fired although its action was handed no matched fact of type {} (no live fact is the reason for this firing)", name, r.ty)),
+                            None => return fail(step, format!("{} fired with matched handle {:?}, which no insert returned", name, h)),
+                        };
+                        let f = &m.facts[idx];
+                        if !f.live {
+                            return fail(step, format!("{} fired for h{}, which is retracted", name, idx + 1));
+                        }
+                        if f.ty != r.ty {
+                            return fail(step, format!("{} (on {}) fired for h{} of type {}", name, r.ty, idx + 1, f.ty));
+                        }
+                        if s.action == Act::ZeroX {
+                            // contents at the moment of firing = what the engine showed the action
+                            let mut c = f.contents.clone();
+                            match x_seen {
+                                Some(FactValue::Integer(i)) => {
+                                    c.insert("x", V::I(*i));
+                                }
+                                None => {
+                                    c.remove("x");
+                                }
+                                other => return fail(step, format!("{} fired for h{} whose field x showed as {:?}", name, idx + 1, other)),
+                            }
+                            if !r.cond.holds(&c) {
+                                return fail(step, format!("{} fired for h{} whose contents at that moment ({:?}) do not satisfy it", name, idx + 1, c));
+                            }
+                        } else if !r.cond.holds(&f.contents) {
+                            return fail(step, format!("{} fired for h{} = {:?}, which does not satisfy it (no single live fact's contents were the reason)", name, idx + 1, f.contents));
+                        }
+                        if s.action == Act::RetractMatched {
+                            m.facts[idx].live = false;
+                            m.touched.insert(m.facts[idx].ty);
+                        }
+                    }
+                }
+                // no-loop: at most once between resets
+                for r in s.rules.iter().filter(|r| r.no_loop) {
+                    let n = fired.iter().filter(|x| x.as_str() == r.name).count();
+                    if n > 1 || (n == 1 && m.fired_since_reset.contains(r.name)) {
+                        return fail(step, format!("no-loop rule {} fired {} time(s) in this fire_all{} (fire_all = {:?})", r.name, n, if m.fired_since_reset.contains(r.name) { " after having fired since the last reset" } else { "" }, fired));
+                    }
+                }
+                for name in &fired {
+                    if !s.rules.iter().any(|r| r.name == name) {
+                        return fail(step, format!("fire_all reported the unknown rule {}", name));
+                    }
+                }
+                if s.action == Act::Nothing {
+                    // sentence 2: fired = the satisfied no-loop rules (each once), no other rule
+                    for r in &s.rules {
+                        let sat = m.facts.iter().any(|f| f.live && f.ty == r.ty && r.cond.holds(&f.contents));
+                        let n = fired.iter().filter(|x| x.as_str() == r.name).count();
+                        if !sat && n > 0 {
+                            return fail(step, format!("{} fired although no live fact satisfies it (fire_all = {:?})", r.name, fired));
+                        }
+                        if sat && r.no_loop && n == 0 && !m.fired_since_reset.contains(r.name) && m.touched.contains(r.ty) {
+                            return fail(step, format!("{} did not fire although a live fact satisfies it, it has not fired since the last reset and facts of type {} changed since the previous fire_all (fire_all = {:?})", r.name, r.ty, fired));
+                        }
+                    }
+                }
+                for name in &fired {
+                    let r = s.rules.iter().find(|r| r.name == name).unwrap();
+                    m.fired_since_reset.insert(r.name);
+                }
+                m.touched.clear();
+                m.apply(s, op);
+                if s.action == Act::ZeroX {
+                    // the action rewrote field x; take the new contents from working memory (not part of the reference)
+                    for (i, f) in m.facts.iter_mut().enumerate() {
+                        if let Some(wf) = e.working_memory().get(&hs[i]) {
+                            match wf.data.get("x") {
+                                Some(FactValue::Integer(v)) => {
+                                    f.contents.insert("x", V::I(*v));
+                                }
+                                _ => {
+                                    f.contents.remove("x");
+                                }
+                            }
+                        }
+                    }
+                }
+            }
+        }
+        if step + 1 == ops.len() || matches!(op, Op::FireAll) {
+            if let Some(why) = check_listing(e.working_memory(), &m, &hs, &types) {
+                return fail(step, why);
+            }
+            if s.action != Act::ZeroX {
+                if let Some(why) = check_contents(e.working_memory(), &m, &hs) {
+                    return fail(step, why);
+                }
+            }
+        }
+    }
+    None
+}
+
+fn enumerate(s: &Setup, hist: &mut Vec<Op>, m: &Model, len: usize, tried: &mut u64, recycled: &mut Option<IncrementalEngine>) -> Option<String> {
+    if hist.len() == len {
+        *tried += 1;
+        return match recycled {
+            Some(e) => match replay(s, hist, Some(e)) {
+                Some(_) => replay(s, hist, None), // confirm on a freshly loaded engine
+                None => None,
+            },
+            None => replay(s, hist, None),
+        };
+    }
+    for op in m.ops(s) {
+        let mut m2 = m.clone();
+        if let Op::FireAll = op {
+            // the model cannot know which rules the real fire_all will fire without running it; for the purpose of
+            // ENUMERATION only (which operations are offered next) assume every satisfied rule fired
+            m2.fired_once = true;
+        } else {
+            m2.apply(s, &op);
+        }
+        hist.push(op);
+        let r = enumerate(s, hist, &m2, len, tried, recycled);
+        hist.pop();
+        if r.is_some() {
+            return r;
+        }
+    }
+    None
+}
+
+fn search(s: &Setup, max_ops: usize) -> (Option<String>, u64) {
+    let mut tried = 0u64;
+    let mut recycled = if s.via_grl { build_engine(s, &Arc::new(Mutex::new(Vec::new()))).ok() } else { None };
+    for len in 1..=max_ops {
+        let mut h = Vec::new();
+        if let Some(v) = enumerate(s, &mut h, &Model::default(), len, &mut tried, &mut recycled) {
+            return (Some(v), tried);
+        }
+    }
+    (None, tried)
+}
+
+// ------------------------------------------------------------------------------------------------ rule sets
+
+fn a_templates() -> Vec<Template> {
+    vec![
+        tpl("A", &[("x", V::I(20))]),
+        tpl("A", &[("x", V::I(10))]), // boundary of x > 10 / x <= 10
+        tpl("A", &[("y", V::S("k"))]), // lacks the field x
+        tpl("A", &[("x", V::I(20)), ("y", V::S("k"))]),
+    ]
+}
+
+fn ab_templates() -> Vec<Template> {
+    let mut t = a_templates();
+    t.push(tpl("B", &[("x", V::I(20))]));
+    t.push(tpl("B", &[("z", V::B(true))]));
+    t
+}
+
+fn rs_conjunction() -> Vec<RuleSpec> {
+    vec![
+        RuleSpec { name: "Both", ty: "A", cond: and(cmp("x", ">", V::I(10)), cmp("y", "==", V::S("k"))), priority: 5, no_loop: true },
+        RuleSpec { name: "BigB", ty: "B", cond: cmp("x", ">=", V::I(20)), priority: 0, no_loop: true },
+    ]
+}
+
+fn rs_two_on_one_type() -> Vec<RuleSpec> {
+    vec![
+        RuleSpec { name: "Either", ty: "A", cond: or(cmp("x", ">", V::I(10)), cmp("y", "==", V::S("k"))), priority: 0, no_loop: true },
+        RuleSpec { name: "Small", ty: "A", cond: cmp("x", "<=", V::I(10)), priority: 3, no_loop: true },
+    ]
+}
+
+/// a negation (true of a fact that lacks the field) next to its positive counterpart; facts of ONE type only, so that
+/// "the negated comparison is false of a fact of another type" never has to be decided
+fn rs_negation() -> Vec<RuleSpec> {
+    vec![
+        RuleSpec { name: "NotBig", ty: "A", cond: C::Not(Box::new(cmp("x", ">", V::I(10)))), priority: 0, no_loop: true },
+        RuleSpec { name: "Big", ty: "A", cond: cmp("x", ">", V::I(10)), priority: 1, no_loop: true },
+    ]
+}
+
+/// direct WorkingMemory histories: insert (3 types) / update / retract over up to 6 facts, listing checked after every step
+fn c06_working_memory_listing_search() -> (bool, String) {
+    #[derive(Clone, Debug)]
+    enum W {
+        Ins(usize),
+        Upd(usize),
+        Ret(usize),
+    }
+    let types = ["A", "B", "C"];
+    let mut tried = 0u64;
+    let mut stack: Vec<Vec<W>> = vec![vec![]];
+    while let Some(h) = stack.pop() {
+        // replay
+        let mut wm = WorkingMemory::new();
+        let mut m = Model::default();
+        let mut hs = Vec::new();
+        for (k, op) in h.iter().enumerate() {
+            match op {
+                W::Ins(t) => {
+                    let mut d = TypedFacts::new();
+                    d.set("n", k as i64);
+                    hs.push(wm.insert(types[*t].to_string(), d));
+                    m.facts.push(MFact { ty: types[*t], contents: [("n", V::I(k as i64))].into_iter().collect(), live: true });
+                }
+                W::Upd(i) => {
+                    let mut d = TypedFacts::new();
+                    d.set("n", 100 + k as i64);
+                    if wm.update(hs[*i], d).is_err() {
+                        return (true, format!("WorkingMemory {:?}: update of the live h{} failed", h, i + 1));
+                    }
+                    m.facts[*i].contents.insert("n", V::I(100 + k as i64));
+                }
+                W::Ret(i) => {
+                    if wm.retract(hs[*i]).is_err() {
+                        return (true, format!("WorkingMemory {:?}: retract of the live h{} failed", h, i + 1));
+                    }
+                    m.facts[*i].live = false;
+                }
+            }
+        }
+        if !h.is_empty() {
+            tried += 1;
+            if let Some(why) = check_listing(&wm, &m, &hs, &types).or_else(|| check_contents(&wm, &m, &hs)) {
+                return (true, format!("WorkingMemory history {:?} (Ins(t) = insert type #t, Upd/Ret(i) = fact #i): {}", h, why));
+            }
+            // a retracted fact accepts neither update nor a second retract
+            for (i, f) in m.facts.iter().enumerate() {
+                if !f.live && (wm.update(hs[i], TypedFacts::new()).is_ok() || wm.get(&hs[i]).is_some()) {
+                    return (true, format!("WorkingMemory history {:?}: the retracted h{} was updated / is found again", h, i + 1));
+                }
+            }
+        }
+        if h.len() < 6 {
+            let n = m.facts.len();
+            // symmetry: a new type index may exceed the largest used so far by at most one
+            let used = h.iter().filter_map(|o| if let W::Ins(t) = o { Some(*t + 1) } else { None }).max().unwrap_or(0);
+            for t in 0..types.len().min(used + 1) {
+                let mut g = h.clone();
+                g.push(W::Ins(t));
+                stack.push(g);
+            }
+            for i in 0..n {
+                if m.facts[i].live {
+                    let mut g = h.clone();
+                    g.push(W::Upd(i));
+                    stack.push(g);
+                    let mut g = h.clone();
+                    g.push(W::Ret(i));
+                    stack.push(g);
+                }
+            }
+        }
+    }
+    (false, format!("{} WorkingMemory histories of <= 6 insert/update/retract over <= 6 facts of 3 types: every live fact listed once by handle, type and in full, retracted ones nowhere, handles distinct", tried))
+}
+
+/// constructor-built rules with recording actions that leave working memory unchanged: a conjunction on A that only a
+/// blend of two facts satisfies, a rule on B, facts lacking a field, two types
+fn c06_fire_all_history_search() -> (bool, String) {
+    let s = Setup { rules: rs_conjunction(), templates: ab_templates(), action: Act::Nothing, via_grl: false, max_facts: 4, with_update: false };
+    match search(&s, 5) {
+        (Some(v), _) => (true, v),
+        (None, n) => (false, format!("{} histories of <= 5 insert/retract/fire_all/reset over <= 4 facts of 2 types (facts lacking a field, conjunction satisfied only by a blend of two facts), firings and listings as the reference", n)),
+    }
+}
+
+/// two rules on one type (a disjunction and its complement, different saliences), and histories with update
+fn c06_fire_all_two_rules_and_update_search() -> (bool, String) {
+    let mut total = 0u64;
+    let setups = vec![
+        (Setup { rules: rs_two_on_one_type(), templates: a_templates(), action: Act::Nothing, via_grl: false, max_facts: 4, with_update: false }, 5),
+        // with updates (only those that never turn a satisfied rule unsatisfied), three facts
+        (Setup { rules: rs_conjunction(), templates: a_templates(), action: Act::Nothing, via_grl: false, max_facts: 3, with_update: true }, 5),
+        (Setup { rules: rs_two_on_one_type(), templates: a_templates(), action: Act::Nothing, via_grl: false, max_facts: 2, with_update: true }, 5),
+        (Setup { rules: rs_negation(), templates: a_templates(), action: Act::Nothing, via_grl: false, max_facts: 3, with_update: false }, 5),
+    ];
+    for (s, depth) in &setups {
+        let (v, n) = search(s, *depth);
+        total += n;
+        if let Some(v) = v {
+            return (true, v);
+        }
+    }
+    (false, format!("{} histories of <= 5 insert/update/retract/fire_all/reset over <= 4 facts (two rules on one type; a negation; updates that keep every satisfied rule satisfied), firings and listings as the reference", total))
+}
+
+/// the same rule sets written as GRL text and loaded through GrlReteLoader (only the returned rule names are observable)
+fn c06_grl_loaded_history_search() -> (bool, String) {
+    let mut total = 0u64;
+    let person = vec![
+        tpl("Person", &[("age", V::I(18)), ("name", V::S("bob"))]), // boundary of age >= 18: Adult only
+        tpl("Person", &[("age", V::I(30)), ("name", V::S("x")), ("money", V::F(200.5))]), // Rich through money
+        tpl("Person", &[("age", V::I(30)), ("name", V::S("x")), ("vip", V::B(true)), ("money", V::F(100.5))]), // Rich through vip, money on the boundary
+        tpl("Person", &[("name", V::S("bob")), ("vip", V::B(true))]), // lacks age: neither (a blend with another Person would be both)
+        tpl("Order", &[("total", V::I(2000))]),
+        tpl("Order", &[("total", V::I(1000))]), // boundary of total > 1000
+    ];
+    let rules = vec![
+        RuleSpec { name: "Adult", ty: "Person", cond: and(cmp("age", ">=", V::I(18)), cmp("name", "!=", V::S("x"))), priority: 10, no_loop: true },
+        RuleSpec { name: "Rich", ty: "Person", cond: and(cmp("age", ">=", V::I(18)), or(cmp("money", ">", V::F(100.5)), cmp("vip", "==", V::B(true)))), priority: 0, no_loop: true },
+        RuleSpec { name: "BigOrder", ty: "Order", cond: cmp("total", ">", V::I(1000)), priority: 5, no_loop: true },
+    ];
+    let setups = vec![
+        (Setup { rules, templates: person, action: Act::Nothing, via_grl: true, max_facts: 3, with_update: false }, 5),
+        (Setup { rules: rs_conjunction(), templates: ab_templates(), action: Act::Nothing, via_grl: true, max_facts: 3, with_update: false }, 4),
+        (Setup { rules: rs_negation(), templates: a_templates(), action: Act::Nothing, via_grl: true, max_facts: 3, with_update: false }, 4),
+    ];
+    for (s, depth) in &setups {
+        let (v, n) = search(s, *depth);
+        total += n;
+        if let Some(v) = v {
+            return (true, v);
+        }
+    }
+    (false, format!("{} histories over GRL-loaded rule sets (3 rules on Person/Order with &&, ||, >=, !=, float and boolean literals; the conjunction set; the negation set), fired rule names and listings as the reference", total))
+}
+
+/// actions that retract or modify the matched fact (sentence 1 and the listing only)
+fn c06_retracting_and_modifying_action_search() -> (bool, String) {
+    let mut total = 0u64;
+    let big = |no_loop| vec![RuleSpec { name: "Big", ty: "A", cond: cmp("x", ">", V::I(10)), priority: 0, no_loop }];
+    let setups = vec![
+        (Setup { rules: big(false), templates: ab_templates(), action: Act::RetractMatched, via_grl: false, max_facts: 4, with_update: false }, 5),
+        (Setup { rules: big(true), templates: a_templates(), action: Act::RetractMatched, via_grl: false, max_facts: 4, with_update: false }, 5),
+        (Setup { rules: big(true), templates: a_templates(), action: Act::ZeroX, via_grl: false, max_facts: 3, with_update: false }, 5),
+    ];
+    for (s, depth) in &setups {
+        let (v, n) = search(s, *depth);
+        total += n;
+        if let Some(v) = v {
+            return (true, v);
+        }
+    }
+    (false, format!("{} histories with an action that retracts the matched fact (no-loop and not) or rewrites its field (one no-loop rule): every firing on a live fact that satisfies the rule at that moment, listings as the reference", total))
+}
+
 pub fn witnesses() -> Vec<crate::W> {
-    vec![]
+    vec![
+        ("c06_working_memory_listing_search", c06_working_memory_listing_search as fn() -> (bool, String)),
+        ("c06_fire_all_history_search", c06_fire_all_history_search as fn() -> (bool, String)),
+        ("c06_fire_all_two_rules_and_update_search", c06_fire_all_two_rules_and_update_search as fn() -> (bool, String)),
+        ("c06_grl_loaded_history_search", c06_grl_loaded_history_search as fn() -> (bool, String)),
+        ("c06_retracting_and_modifying_action_search", c06_retracting_and_modifying_action_search as fn() -> (bool, String)),
+    ]
 }
